@@ -29,6 +29,17 @@ CLAIMED = {
         "epoch conversions are claimed from 1970 on.",
    technique="Lean 4 proof (induction + linear arithmetic over generated tables) + differential correspondence check",
    design="§5 C08"),
+ "C18": dict(
+   text="Lean theorems (Echse.Props.C18) about the transcribed model of dt_strp/dt_strf/dt_strf_ical/idiff_strp/"
+        "idiff_strf: print-then-parse is the identity for every normal instant (ISO and iCalendar forms, all "
+        "separator spellings) and for every whole-second duration of any length; equivalent W/D/H/M/S spellings and "
+        "a leading sign read as the value they denote. Model tied to dt-strpf.c by a two-pass differential run "
+        "(print, then parse what the implementation printed) including malformed texts; the identity is also "
+        "checked on the implementation's answers directly.",
+   note="Trusted: Lean kernel; harness hx_cal.c; strings are byte lists, output buffers assumed large enough "
+        "(callers use >= 32 bytes). range_strp/range_strf are not modelled.",
+   technique="Lean 4 proof (symbolic evaluation of the parser on printed digit strings, induction over digit lists) + differential correspondence check",
+   design="§5 C18"),
 }
 
 checks = []
